@@ -138,6 +138,101 @@ def enum_pool(cls, rng):
     return vals
 
 
+CHARSETS = {0: "utf-8", 3: "utf_32be", 4: "utf_16be", 5: "latin_1"}
+
+
+def check_received_string(run, cls, text, ctx):
+    """a character string that arrived in one of the standard's character sets (so the object carries that set) is relayed:
+    re-encoded as it is and through a copy (what the constructed encoders do with element.klass(value)); octets and value stay"""
+    from bacpypes.primitivedata import Tag
+    from bacpypes.comm import PDUData
+    cname = cls.__module__ + "." + cls.__name__
+    for code, codec in CHARSETS.items():
+        try:
+            raw = text.encode(codec)
+            if raw.decode(codec) != text:
+                continue
+        except Exception:
+            continue
+        if code == 0 and len(raw) == 0 and False:
+            continue
+        content = bytes([code]) + raw
+        octets = R.tlv_encode([(R.APP, R.CHARS, len(content), content)])
+        wit = {"class": cname, "charset": code, "text": repr(text)[:80], "octets": octets[:40]}
+        try:
+            tag = Tag(PDUData(octets))
+            got = cls(tag)
+        except Exception as err:
+            run.violation("received-string-refused/charset%d/%s" % (code, type(err).__name__), dict(wit, error=repr(err)[:120]))
+            return
+        run.case((cname, "received", code, len(text), hash(text)), sample=None)
+        if got.value != text:
+            run.violation("received-string-decodes-to-another-value/charset%d" % code, dict(wit, decoded=repr(got.value)[:80]))
+            return
+        for how, obj in (("as-received", got), ("copy", None)):
+            try:
+                if obj is None:
+                    obj = cls(got)
+                t2 = Tag()
+                obj.encode(t2)
+                pdu = PDUData()
+                t2.encode(pdu)
+                out = bytes(pdu.pduData)
+                c2 = t2.app_to_context(ctx)
+                pdu = PDUData()
+                c2.encode(pdu)
+                outc = bytes(pdu.pduData)
+            except Exception as err:
+                run.violation("received-string-not-relayable/%s/%s" % (how, type(err).__name__), dict(wit, error=repr(err)[:120]))
+                return
+            run.count("octets_compared", 2)
+            run.count("received_strings_relayed")
+            if out != octets or outc != R.tlv_encode([(R.CTX, ctx, len(content), content)]):
+                back = None
+                try:
+                    back = cls(Tag(PDUData(out))).value
+                except Exception as err:
+                    back = "decode raised " + type(err).__name__
+                run.violation(("silently-altered-value/relayed-string/%s" if back != text else "relayed-string-octets-differ/%s") % how,
+                              dict(wit, produced=out[:40], decodes_to=repr(back)[:80]))
+                return
+            if obj.value != text:
+                run.violation("copy-has-another-value/charset%d" % code, dict(wit, copy=repr(obj.value)[:80]))
+                return
+
+
+def check_unrepresentable_context(run, cls, v):
+    """tag numbers that do not fit the one-octet extended tag number: refused, never wrapped into another number"""
+    from bacpypes.primitivedata import Tag
+    from bacpypes.comm import PDUData
+    try:
+        obj = cls(v)
+        tag = Tag()
+        obj.encode(tag)
+    except Exception:
+        return
+    for n in (256, 257, 270, 300, 511, 512, 65535, 65536, -1, -3, -256):      # (255 is reserved by the standard; the library passes it through unaltered)
+        run.case((cls.__name__, "bad-context", n), sample=None)
+        try:
+            ctag = tag.app_to_context(n)
+            pdu = PDUData()
+            ctag.encode(pdu)
+            out = bytes(pdu.pduData)
+        except Exception as err:
+            run.count("refusals")
+            run.seen("refusal_types", type(err).__name__)
+            continue
+        try:
+            items = R.tlv_parse(out)
+            num = items[0][1] if items else None
+        except Exception:
+            num = "unparsable"
+        run.count("octets_compared")
+        if num != n:
+            run.violation("context-number-silently-altered", {"class": cls.__name__, "context": n, "octets": out[:16], "decodes_to_context": repr(num)})
+            return
+
+
 def main():
     run = Run("C01", "exploration", RULE, assumptions=[
         "struct's IEEE-754 packing is trusted as the reference for Real/Double",
@@ -198,7 +293,11 @@ def main():
             else:
                 ctxs = all_ctx if rot % 97 == 0 else ctx_edge
             check_atomic_value(run, cls, v, ctxs)
-    run.finish(require=("octets_compared", "decodes_compared", "refusals"))
+            if kind == R.CHARS and isinstance(v, str) and len(v) < 300:
+                check_received_string(run, cls, v, ctxs[rot % len(ctxs)])
+            if vi < 3:
+                check_unrepresentable_context(run, cls, v)
+    run.finish(require=("octets_compared", "decodes_compared", "refusals", "received_strings_relayed"))
 
 
 def replay(run):
